@@ -696,7 +696,8 @@ attrsLoop:
 
 						// a browser strips leading and trailing C0 control
 						// or space characters before it parses the value
-						u, err := url.Parse(strings.TrimFunc(htmlAttr.Val, func(r rune) bool { return r <= 0x20 }))
+						href := strings.TrimFunc(htmlAttr.Val, func(r rune) bool { return r <= 0x20 })
+						u, err := url.Parse(href)
 						if err != nil {
 							// only possible when URLs are not required
 							// to parse: whether the link has a host is
@@ -704,7 +705,7 @@ attrsLoop:
 							externalLink = true
 							continue
 						}
-						if u.Host != "" {
+						if u.Host != "" || browserFindsHost(u.Scheme, href) {
 							externalLink = true
 						}
 
@@ -1115,6 +1116,24 @@ func (p *Policy) validURL(rawurl string) (string, bool) {
 	}
 
 	return rawurl, true
+}
+
+// browserFindsHost reports whether a browser may resolve href to a host although
+// net/url found none. For the schemes with an authority of their own (http, https,
+// ftp, ws, wss) browsers accept any number of slashes or backslashes after the
+// colon: http:/example.com, https:\\example.com and, on a page that was loaded
+// over another scheme, http:example.com all lead to example.com. A reference
+// without a scheme that starts with two slashes or backslashes is scheme-relative
+// whatever follows: ///example.com, /\example.com.
+func browserFindsHost(scheme, href string) bool {
+	switch scheme {
+	case "http", "https", "ftp", "ws", "wss":
+		return true
+	case "":
+		isSlash := func(c byte) bool { return c == '/' || c == '\\' }
+		return len(href) > 1 && isSlash(href[0]) && isSlash(href[1])
+	}
+	return false
 }
 
 // keptPrefix marks the entries of the stack of closing tags to skip that belong
